@@ -138,6 +138,10 @@ func genDBody(r *rnd, depth int, n *int) DBody {
 			it.Body = &nb
 			if r.chance(1, 8) {
 				it.OpenCmt = cmt(r, n)
+				if r.chance(1, 3) {
+					*n++
+					it.OpenCmt = fmt.Sprintf("/* c%d */ ", *n) + cmt(r, n)
+				}
 			}
 			if r.chance(1, 10) {
 				*n++
@@ -152,6 +156,11 @@ func genDBody(r *rnd, depth int, n *int) DBody {
 			if r.chance(1, 6) {
 				// single-line block: at most one attribute, no comments inside
 				it.OneLine = true
+				it.OpenCmt = ""
+				if r.chance(1, 6) {
+					*n++
+					it.OpenCmt = fmt.Sprintf("/* c%d\n   two lines */", *n)
+				}
 				var ob DBody
 				if r.chance(2, 3) {
 					ob.Items = []DItem{{Name: genName(r), Eq: " = ", Expr: r.pick(`1`, `"s"`, `x.y`, `[1, 2]`, `f(x)`, "{\n    k = 1\n  }", "[\n    1,\n    2,\n  ]", "(\n    a +\n    b\n  )")}}
@@ -243,6 +252,9 @@ func renderBody(b *DBody, ind string, nl string, sb *strings.Builder) {
 			}
 			if it.OneLine {
 				sb.WriteString(" {")
+				if it.OpenCmt != "" {
+					sb.WriteString(" " + strings.ReplaceAll(it.OpenCmt, "\n", nl))
+				}
 				if it.Body != nil && len(it.Body.Items) > 0 {
 					a := it.Body.Items[0]
 					sb.WriteString(" " + a.Name + a.Eq + a.Expr + " ")
@@ -306,7 +318,7 @@ func genV(r *rnd, d int) *V {
 		// whole numbers held at float64 precision
 		return &V{K: "f64", S: r.pick("4611686018427387904", "1e23", "9007199254740993", "-1.8446744073709552e19", "1e300")}
 	case k == 4:
-		return &V{K: "numf", S: r.pick("1.5", "-0.25", "1e100", "123456789012345678901234567890", "0.1", "3.14159265358979")}
+		return &V{K: "numf", S: r.pick("1.5", "-0.25", "1e100", "123456789012345678901234567890", "0.1", "3.14159265358979", "1.0000000000000000001", "18446744073709551616.5", "1e-400", "-0.000000000000000000000000000001")}
 	case k == 5:
 		return &V{K: "bool", B: r.chance(1, 2)}
 	case k == 6:
